@@ -118,7 +118,39 @@ def worker(job):
     seed, kw, spec = job
     rng = random.Random(seed)
     case = gen.gen_case(rng, n_unexpected=0, **kw)
-    x = extra_row(rng, case, spec)
+    if spec.get("shape") and case["office"] in ("H", "Y", "Z"):
+        # boundary shapes of the contest structure: a district with exactly ten expected units / a state with a single district
+        dists = sorted({b["district"] for b in case["baseline"]})
+        d0 = dists[0]
+        if spec["shape"] == "ten":
+            keep, n = [], 0
+            for b in case["baseline"]:
+                if b["district"] == d0:
+                    n += 1
+                    if n > 10:
+                        continue
+                keep.append(b)
+            if n >= 10:
+                case["baseline"] = keep
+        else:
+            for b in case["baseline"]:
+                if b["district"] != d0:
+                    b["geographic_unit_fips"] = d0 + "_" + b["geographic_unit_fips"].split("_", 1)[1] + "r"
+                    b["district"] = d0
+        ids = {b["geographic_unit_fips"] for b in case["baseline"]}
+        case["feed"] = [f for f in case["feed"] if f["geographic_unit_fips"] in ids]
+        have = {f["geographic_unit_fips"] for f in case["feed"]}
+        for b in case["baseline"]:
+            if b["geographic_unit_fips"] not in have:
+                case["feed"].append(gen.live_row(rng, b, rng.choice([100, 100, 60])))
+        bl = case["params"]["model_parameters"].get("unit_blocklist")
+        if bl:
+            case["params"]["model_parameters"]["unit_blocklist"] = [u for u in bl if u in ids and not u.startswith(d0 + "_")]
+        x = extra_row(rng, case, dict(spec, district="known" if spec["shape"] == "ten" else "new"))
+        if spec["shape"] == "ten":
+            x["geographic_unit_fips"] = d0 + "_" + x["geographic_unit_fips"].split("_", 1)[1]
+    else:
+        x = extra_row(rng, case, spec)
     case1 = copy.deepcopy(case)
     case1["feed"].append(x)
     h0 = aggfam.harvest(case)
@@ -200,6 +232,11 @@ def jobs_for(chk):
     for _ in range(reps):
         for kw, spec in fam:
             jobs.append((rng.randint(0, 2**31), kw, spec))
+        for shape in ("ten", "atlarge"):
+            for ut in ("precinct-district", "county-district"):
+                jobs.append((rng.randint(0, 2**31), {"pi_method": "bootstrap", "avoid_boot_nan_key": False, "office": "H", "unit_type": ut, "n_states": 1,
+                                                     "aggregates": ["postal_code", "district", "unit"], "handle_unreporting": "drop"},
+                             {"state": "known", "county": "known", "district": "known", "pev": 100, "shape": shape}))
     return jobs
 
 
